@@ -114,20 +114,29 @@ Definition fx_ok (s s4 : state) : Prop :=
        h_blroot (r_hdr (w_rec w)) = mth H (firstn (N.to_nat (h_bltxid (r_hdr (w_rec w)))) (s_aht s))) /\
     (forall x, In x (s_wait s4) -> In x (s_wait s) \/ x = (s_inmem s + 1, pe_alh pe)).
 
+(* what is known about a record written by the critical section started in state s *)
+Definition fresh_write (s : state) (w : wr) : Prop :=
+  let h := r_hdr (w_rec w) in
+  h_id h = s_inmem s + 1 /\ h_prevalh h = s_ialh s /\ h_bltxid h < s_inmem s + 1 /\
+  (s_inmem s <= lenN (s_aht s) -> 0 < h_bltxid h ->
+   h_blroot h = mth H (firstn (N.to_nat (h_bltxid h)) (s_aht s))).
+
 (* the critical section: the state it leaves is either an intermediate invariant state s4, or what
    mayCommit makes of s4 (unsynced store, after a successful precommit) *)
-Lemma locked_cases s c stale : Inv s ->
+Lemma locked_cases s c : Inv s ->
   exists s4, Inv s4 /\ clog_keep s s4 /\ tl_keep (s_ptls s) s s4 /\
-             (fst (locked H s c stale) = s4 \/ fst (locked H s c stale) = fst (may_commit s4)) /\
+             (fst (locked H s c) = s4 \/ fst (locked H s c) = fst (may_commit s4)) /\
              (* every write it adds to the tx log starts at precommittedTxLogSize *)
              (forall w, In w (s_txlog s4) -> In w (s_txlog s) \/ w_off w = s_ptls s) /\
-             (fx_fail s s4 \/ fx_ok s s4).
+             (fx_fail s s4 \/ fx_ok s s4) /\
+             (forall w, In w (s_txlog s4) -> In w (s_txlog s) \/ fresh_write s w).
 Proof.
   intros HI. unfold locked.
   assert (K0 : clog_keep s s /\ tl_keep (s_ptls s) s s).
   { pose proof HI as []. split; [apply clog_keep_refl; auto|apply tl_keep_refl]. }
   assert (N0 : forall w, In w (s_txlog s) -> In w (s_txlog s) \/ w_off w = s_ptls s) by (intros; left; auto).
   assert (F0 : fx_fail s s \/ fx_ok s s) by (left; repeat split).
+  assert (M0 : forall w, In w (s_txlog s) -> In w (s_txlog s) \/ fresh_write s w) by (intros; left; auto).
   destruct (find_pend s c) as [q|]; [|exists s; tauto].
   pose proof (Inv_upd_pend s (del_pend s c) HI) as HI0.
   set (s0 := upd_pend s (del_pend s c)) in *.
@@ -135,6 +144,7 @@ Proof.
   { split; [apply clog_keep_same; reflexivity|apply tl_keep_same; reflexivity]. }
   assert (N1 : forall w, In w (s_txlog s0) -> In w (s_txlog s) \/ w_off w = s_ptls s) by (intros; left; auto).
   assert (F1 : fx_fail s s0 \/ fx_ok s s0) by (left; repeat split).
+  assert (M1 : forall w, In w (s_txlog s0) -> In w (s_txlog s) \/ fresh_write s w) by (intros; left; auto).
   destruct (match q_exp q with | Some _ => _ | None => _ end) as [[ts bltxid]|e|];
     [|exists s0; tauto|exists s0; tauto].
   destruct (match q_precond q with | Some false => true | _ => false end); [exists s0; tauto|].
@@ -147,7 +157,9 @@ Proof.
   assert (N2 : forall w, In w (s_txlog s1) -> In w (s_txlog s) \/ w_off w = s_ptls s).
   { intros w0 Hin. left. eapply drops_in; [apply (set_offset_drops s0)|exact Hin]. }
   assert (F2 : fx_fail s s1 \/ fx_ok s s1) by (left; repeat split).
-  destruct (if 0 <? bltxid then aht_root_tolerant H (s_aht s1) bltxid else Ok stale) as [blroot|e|] eqn:Eroot;
+  assert (M2 : forall w, In w (s_txlog s1) -> In w (s_txlog s) \/ fresh_write s w).
+  { intros w0 Hin. left. eapply drops_in; [apply (set_offset_drops s0)|exact Hin]. }
+  destruct (if 0 <? bltxid then aht_root_tolerant H (s_aht s1) bltxid else Ok zeros32) as [blroot|e|] eqn:Eroot;
     [|exists s1; tauto|exists s1; tauto].
   destruct (N.leb_spec (s_inmem s1 + 1) bltxid) as [Lb|Lb]; [exists s1; tauto|].
   match goal with |- context [alh_of H ?h] => set (hdr := h) end.
@@ -164,6 +176,18 @@ Proof.
   assert (N3 : forall w', In w' (s_txlog s2) -> In w' (s_txlog s) \/ w_off w' = s_ptls s).
   { intros w0 [<-|Hin]; [right; reflexivity|apply N2; exact Hin]. }
   assert (F3 : fx_fail s s2 \/ fx_ok s s2) by (left; repeat split).
+  assert (Hfresh : fresh_write s w).
+  { unfold fresh_write, w. cbn [w_rec r_hdr]. unfold hdr. cbn [h_id h_prevalh h_bltxid h_blroot].
+    split; [reflexivity|]. split; [reflexivity|]. split; [exact Lb|].
+    intros Hlen Hb. change (s_aht s1) with (s_aht s) in Eroot. change (s_inmem s1) with (s_inmem s) in Lb.
+    destruct (N.ltb_spec 0 bltxid) as [_|]; [|lia].
+    unfold aht_root_tolerant, aht_root_at in Eroot.
+    destruct (N.eqb_spec bltxid 0); [lia|].
+    destruct (N.eqb_spec (lenN (s_aht s)) 0) as [Ez|_]; [lia|].
+    destruct (N.ltb_spec (lenN (s_aht s)) bltxid); [cbn in Eroot; discriminate|].
+    injection Eroot as <-. reflexivity. }
+  assert (M3 : forall w', In w' (s_txlog s2) -> In w' (s_txlog s) \/ fresh_write s w').
+  { intros w0 [<-|Hin]; [right; exact Hfresh|apply M2; exact Hin]. }
   destruct (aht_reset (s_aht s2) (s_inmem s2)) as [a0|e|] eqn:Ear; [|exists s2; tauto|exists s2; tauto].
   assert (Ha0 : s_inmem s <= lenN (s_aht s) /\ a0 = firstn (N.to_nat (s_inmem s)) (s_aht s)).
   { unfold aht_reset in Ear. change (s_aht s2) with (s_aht s) in Ear. change (s_inmem s2) with (s_inmem s) in Ear.
@@ -245,14 +269,14 @@ Proof.
     - intros x Hin. subst s4. sp.
       match type of Hin with In _ (if ?b then _ else _) => destruct b end; [left; exact Hin|].
       destruct Hin as [<-|Hin]; [right; reflexivity|left; exact Hin]. }
-  exists s4. split; [exact HI4|]. split; [apply K5|]. split; [apply K5|]. split; [|split; [exact N4|exact F5]].
+  exists s4. split; [exact HI4|]. split; [apply K5|]. split; [apply K5|]. split; [|split; [exact N4|split; [exact F5|exact M3]]].
   match goal with |- context [if ?b then (s4, _) else _] => destruct b end; [left; reflexivity|].
   right. destruct (may_commit s4) as [s5 r]. destruct r; reflexivity.
 Qed.
 
-Lemma locked_inv s c stale : Inv s -> Inv (fst (locked H s c stale)).
+Lemma locked_inv s c : Inv s -> Inv (fst (locked H s c)).
 Proof.
-  intros HI. destruct (locked_cases s c stale HI) as (s4 & HI4 & _ & _ & [-> | ->] & _ & _); auto.
+  intros HI. destruct (locked_cases s c HI) as (s4 & HI4 & _ & _ & [-> | ->] & _ & _ & _); auto.
   apply may_commit_inv. exact HI4.
 Qed.
 
@@ -321,11 +345,13 @@ Proof.
   rewrite nth_error_app2, Nat.sub_diag in Hn by lia. injection Hn as ->. reflexivity.
 Qed.
 
-Lemma reopen_inv s : Inv s -> Inv (fst (reopen H s)).
+Lemma reopen_state_inv s calh ctls b pid palh ptls : Inv s ->
+  reopen_r0 H s = Ok (calh, ctls) ->
+  reload H (S (length (s_txlog s))) (s_txlog s) (pb_new (c_maxactive (s_cfg s))) (lenN (s_clog s)) calh ctls
+    = Ok (b, pid, palh, ptls) ->
+  Inv (reopen_state s calh b pid palh ptls).
 Proof.
-  intros HI. unfold reopen.
-  match goal with |- context [match ?r0 with Ok _ => _ | Err _ => _ | Panic => _ end] =>
-    destruct r0 as [[calh ctls]|e|] eqn:E0 end; [|exact HI|exact HI].
+  intros HI E0 ER. unfold reopen_r0 in E0.
   pose proof HI as [].
   (* the commit log, now entirely committed, is a chain that ends exactly at ctls, and calh is its last alh *)
   assert (Hstart : chain (s_txlog s) 0 (H []) 0 (s_clog s ++ map cent (pb_list (pb_new (c_maxactive (s_cfg s))))) ctls /\
@@ -356,7 +382,6 @@ Proof.
       + rewrite last_alh_snoc. reflexivity. }
   destruct Hstart as [Hch0 Hcalh].
   destruct (pb_new_spec _ i_maxactive) as (Hok0 & Hl0 & _).
-  destruct (reload H _ _ _ _ _ _) as [[[[b pid] palh] ptls]|e|] eqn:ER; [|exact HI|exact HI].
   assert (A1 : lenN (s_clog s) = lenN (s_clog s) + lenN (pb_list (pb_new (c_maxactive (s_cfg s))))).
   { rewrite Hl0, lenN_nil. lia. }
   assert (A2 : calh = last_alh (H []) (s_clog s ++ map cent (pb_list (pb_new (c_maxactive (s_cfg s)))))).
@@ -365,16 +390,22 @@ Proof.
   { rewrite Hl0. intros k pe Hk. destruct k; discriminate. }
   destruct (reload_spec (s_txlog s) (s_clog s) _ _ _ _ _ Hok0 Hch0 A1 A2 A3 _ _ _ _ ER)
     as (Hokb & Hchb & Hpid & Hpalh & Hidsb).
-  match goal with |- context [if pid <? lenN (s_aht ?s1') then _ else _] => set (s1 := s1') in * end.
-  assert (HI1 : Inv s1).
-  { assert (Hfull : firstn (N.to_nat (lenN (s_clog s))) (s_clog s) = s_clog s).
-    { apply firstn_all2. unfold lenN. lia. }
-    constructor; unfold live, clogC; subst s1; sp; rewrite ?Hfull; auto.
-    - lia.
-    - eapply (chain_prefix H); eauto. }
-  destruct (pid <? lenN (s_aht s1)); [apply Inv_upd_aht; exact HI1|].
-  destruct (lenN (s_aht s1) =? pid); [exact HI1|].
-  destruct (relink H _ s1 _ _ _) as [a|e|]; [apply Inv_upd_aht; exact HI1|exact HI|exact HI].
+  assert (Hfull : firstn (N.to_nat (lenN (s_clog s))) (s_clog s) = s_clog s).
+  { apply firstn_all2. unfold lenN. lia. }
+  constructor; unfold live, clogC, reopen_state; sp; rewrite ?Hfull; auto.
+  - lia.
+  - eapply (chain_prefix H); eauto.
+Qed.
+
+Lemma reopen_inv s : Inv s -> Inv (fst (reopen H s)).
+Proof.
+  intros HI. unfold reopen.
+  destruct (reopen_r0 H s) as [[calh ctls]|e|] eqn:E0; [|exact HI|exact HI].
+  destruct (reload H _ _ _ _ _ _) as [[[[b pid] palh] ptls]|e|] eqn:ER; [|exact HI|exact HI].
+  pose proof (reopen_state_inv s _ _ _ _ _ _ HI E0 ER) as HI1.
+  match goal with |- context [lenN ?a1' =? pid] => set (a1 := a1') in * end.
+  destruct (lenN a1 =? pid); [apply Inv_upd_aht; exact HI1|].
+  destruct (relink H _ _ _ _ _) as [a|e|]; [apply Inv_upd_aht; exact HI1|exact HI|exact HI].
 Qed.
 
 End Steps.
